@@ -51,6 +51,9 @@ from qv import env, gen, ref
 from qv.monitor import HookSet
 
 ID = "C15"
+# the imaginary-part truncation threshold is deliberately DIFFERENT from every eps_proj_physical used (1e-5, 1e-7, 1e-9):
+# settings stored in results must keep the two apart (missed seeded change C15-3)
+EPS_TRUNC = 1e-6
 RULE = ("flow settings: unknown type (state, povm, gate, mprocess on 1 qubit; state on 1 qutrit in thorough) x noise "
         "(depolarised p in [0.02,0.5], random Lindbladian strength 1e-3..0.3, and mixtures of methods) x int data/object "
         "seeds (0 and small ints included) x n_sample 2..3 x n_rep 2..6 x num_data lists x estimator cases (linear, "
@@ -643,7 +646,7 @@ def build_test_setting(spec):
         seed_qoperation=spec["seed_qoperation"], seed_data=spec["seed_data"], n_sample=spec["n_sample"],
         n_rep=spec["n_rep"], num_data=list(spec["num_data"]), schedules="all",
         case_names=[c[0] for c in cases], estimators=[c[1] for c in cases],
-        eps_proj_physical_list=[spec["eps_proj"]] * len(cases), eps_truncate_imaginary_part_list=[spec["eps_proj"]] * len(cases),
+        eps_proj_physical_list=[spec["eps_proj"]] * len(cases), eps_truncate_imaginary_part_list=[EPS_TRUNC] * len(cases),
         algo_list=[c[4] for c in cases], loss_list=[c[3] for c in cases], parametrizations=[c[2] for c in cases], c_sys=c_sys)
 
 
@@ -995,7 +998,7 @@ def make_sim_setting(spec, case, tr, tes, seed_data):
     ss = StandardQTomographySimulationSetting(
         name=name, true_object=tr, tester_objects=tes, estimator=est, seed_data=seed_data, n_rep=spec["n_rep"],
         num_data=list(spec["num_data"]), schedules="all", eps_proj_physical=spec["eps_proj"],
-        eps_truncate_imaginary_part=spec["eps_proj"], loss=loss[0], loss_option=loss[1], algo=algo[0], algo_option=algo[1])
+        eps_truncate_imaginary_part=EPS_TRUNC, loss=loss[0], loss_option=loss[1], algo=algo[0], algo_option=algo[1])
     return ss, para
 
 
